@@ -79,6 +79,9 @@ def setup_violation(prop, seed, tier, dirty):
 
 
 def run_generated(prop, tier, seed, known, want_trace=False):
+    import schemas
+
+    schemas.restore_defaults()
     if singletons_dirty():
         restore_singletons()
     try:
@@ -120,6 +123,9 @@ def run_generated(prop, tier, seed, known, want_trace=False):
 
 
 def run_replay(prop, cfg, trace, known, on=None):
+    import schemas
+
+    schemas.restore_defaults()
     if singletons_dirty():
         restore_singletons()
     if cfg.get("setup_only"):
